@@ -100,7 +100,8 @@ where
         let query_bins = self
             .bins()
             .iter()
-            .filter(|(id, _)| region_bins[**id])
+            // Bin IDs come from the index file and may be out of range for the geometry.
+            .filter(|(id, _)| region_bins.get(**id).unwrap_or(false))
             .map(|(_, bin)| bin)
             .collect();
 
